@@ -27,7 +27,7 @@ ASSUMPTIONS = ['a window end that coincides with a tabulated wavelength may go e
                'an empty window (no wavelength strictly inside) is outside the quantifier and not generated',
                'requested wavelengths exactly half-way between two tabulated ones are not generated']
 PROBES = ['window_end_on_node_included', 'window_end_on_node_excluded', 'single_wavelength_window', 'default_window', 'chunk_size_1',
-          'chunk_smaller_than_window', 'multi_aperture', 'cube_slice_checked', 'cube_memmap', 'cube_request_between', 'cube_request_outside', 'prelude_epoch', 'rerun_over_leftovers']
+          'chunk_smaller_than_window', 'multi_aperture', 'cube_slice_checked', 'cube_memmap', 'cube_request_between', 'cube_request_outside', 'prelude_epoch', 'rerun_over_leftovers', 'memory_limit_as_i32', 'memory_limit_as_f32', 'memory_limit_as_int', 'memory_limit_as_i64', 'memory_limit_as_f64']
 
 
 def budgets(tier):
@@ -127,7 +127,7 @@ def _execute(sc, sim, out):
     if W.n_ap > 1:
         out.probe('multi_aperture')
     trace = [n_wav, W.n_ap, W.n_models]
-    for st in sc['steps']:
+    for k_win, st in enumerate(sc['steps']):
         win = st['window']
         lo, hi = (None, None) if win is None else (win[0], win[1])
         if win is None:
@@ -137,6 +137,10 @@ def _execute(sc, sim, out):
         strict = [x for x in sw if lo is None or (lo < x < hi)]
         incl = [x for x in sw if lo is None or (lo <= x <= hi)]
         chunks = (list(range(1, n_wav + 1)) + [None]) if st['chunks'] == 'all' else st['chunks']
+        if st['chunks'] == 'all':
+            # generous limits handed over as other number types (chunk size = all wavelengths at once)
+            kinds = ['i32:2', 'i32:6', 'f32:1.5', 'int:3', 'i64:4', 'i32:3', 'f64:2.0']
+            chunks = chunks + [kinds[(k_win + n_wav) % len(kinds)], kinds[(k_win + 2 * n_wav + 3) % len(kinds)]]
         chunks = [(c, False) for c in chunks] + [(c, True) for c in st.get('rerun', [])]
         digests = {}
         bnd = set()
@@ -148,6 +152,11 @@ def _execute(sc, sim, out):
                 sim.fired('rerun_over_leftovers')
             else:
                 shutil.rmtree(os.path.join(d, 'convolved'), ignore_errors=True)
+            if isinstance(chunk, str):
+                kind_, val_ = chunk.split(':')
+                kw['max_ram'] = {'i32': np.int32, 'i64': np.int64, 'f32': np.float32, 'f64': np.float64, 'int': int}[kind_](float(val_))
+                out.probe('memory_limit_as_' + kind_)
+                chunk = None
             if chunk is not None:
                 kw['max_ram'] = (chunk + 0.5) * 8 * W.n_models * W.n_ap / 1024. ** 3
                 if chunk == 1:
